@@ -331,10 +331,22 @@ impl MainEvent {
             }
         }
 
-        for chunks in pwb_chunks_map.into_values() {
+        for ((board_id, after_id), chunks) in pwb_chunks_map {
             let packet = PwbPacket::try_from(chunks)?;
-            let board_id = packet.board_id();
-            let after_id = packet.after_id();
+            // The packet has to agree with the chunks (and bank names) it came in.
+            if packet.board_id() != board_id {
+                return Err(TryMainEventFromDataBanksError::PadwingBoardIdMismatch {
+                    expected: board_id,
+                    found: packet.board_id(),
+                });
+            }
+            if packet.after_id() != after_id {
+                return Err(TryPwbPacketFromChunksError::ChannelIdMismatch {
+                    found: packet.after_id(),
+                    expected: after_id,
+                }
+                .into());
+            }
             for &channel_id in packet.channels_sent() {
                 if let padwing::ChannelId::Pad(pad_channel_id) = channel_id {
                     // A waveform is guaranteed to exist and not be empty if the
